@@ -1,10 +1,10 @@
 SPECIFICATION Spec
 CONSTANTS
   WithFeeGrant = FALSE
-  MaxHeight = 5
+  MaxHeight = 4
   MaxTx = 6
   MaxFail = 1
-  Amounts <- AmountsFull
+  Amounts <- AmountsQuick
 VIEW View
 INVARIANT Inv
 PROPERTY StepProps
